@@ -349,8 +349,23 @@ type ExecResult struct {
 	Err      error
 	Panicked bool
 	PanicVal any
-	Events   sdk.Events
+	Events   []Event
 	GasUsed  uint64
+}
+
+// Event is one event emitted by a message (from the handler's result).
+type Event struct {
+	Type  string
+	Attrs [][2]string
+}
+
+func (e Event) Attr(key string) string {
+	for _, a := range e.Attrs {
+		if a[0] == key {
+			return a[1]
+		}
+	}
+	return ""
 }
 
 func (r ExecResult) OK() bool { return r.Err == nil && !r.Panicked }
@@ -391,7 +406,15 @@ func (c *Chain) ExecOn(ctx sdk.Context, msg sdk.Msg) (out ExecResult) {
 	}()
 	if out.OK() {
 		write()
-		out.Events = cctx.EventManager().Events()
+		if out.Res != nil {
+			for _, ev := range out.Res.Events {
+				e := Event{Type: ev.Type}
+				for _, a := range ev.Attributes {
+					e.Attrs = append(e.Attrs, [2]string{a.Key, a.Value})
+				}
+				out.Events = append(out.Events, e)
+			}
+		}
 	}
 	return
 }
